@@ -46,6 +46,8 @@ Section Spec.
   Hypothesis HI : Inv s.
   (** every cached certificate and every certificate in storage is complete (chain and key) *)
   Hypothesis Hcomplete : forall h x, alookup h (cache s) = Some x -> at_complete (attr_get (l_attrs c) h) = true.
+  (** the Names of a cached certificate are the names its leaf carries *)
+  Hypothesis Hnames : forall h x, alookup h (cache s) = Some x -> at_names (attr_get (l_attrs c) h) = c_names x.
   Hypothesis Hstored : forall k x, alookup k (x_storage (l_envx c)) = Some x ->
     alookup (c_hash (sd_cert x)) (l_stored_complete c) = Some true.
 
@@ -70,14 +72,18 @@ Section Spec.
   (** what comes out of the cache is listed under the name it was found by, and is a supported
       unexpired certificate if one is listed there *)
   Lemma selected_ok m x : select_cert supf validf s m = Some x ->
-    alookup (c_hash x) (cache s) = Some x /\ listed_under s (c_hash x) m = true /\
+    alookup (c_hash x) (cache s) = Some x /\
+    listed_under s (c_hash x) m = true /\ really_names c (c_hash x) m = true /\
     (negb (existsb goodb (idx s m)) || goodb (c_hash x)) = true /\
     (negb (existsb supf (idx s m)) || supf (c_hash x)) = true.
   Proof.
     intros Hs. destruct (select_some supf validf names_of (l_cap c) s m x HI Hs) as (Hc & Hm & Hin & Hg).
-    split; [exact Hc|]. split; [|split].
-    - unfold listed_under. rewrite Hc. apply andb_true_iff. split; apply mem_str_In; [|exact Hm].
-      apply matching_hash_in_idx. exact Hin.
+    assert (H2 : mem_str m (c_names x) = true) by (apply mem_str_In; exact Hm).
+    split; [exact Hc|]. split; [|split; [|split]].
+    - unfold listed_under. rewrite Hc.
+      assert (H1 : mem_str (c_hash x) (idx s m) = true) by (apply mem_str_In, matching_hash_in_idx; exact Hin).
+      rewrite H1, H2. reflexivity.
+    - unfold really_names. rewrite (Hnames _ _ Hc). exact H2.
     - destruct (existsb goodb (idx s m)) eqn:E; [|reflexivity]. cbn [negb orb].
       apply existsb_exists in E. destruct E as (h & Hh & Hgood).
       destruct (idx_hash_matching m h Hh) as (x' & Hx' & <-).
@@ -167,8 +173,8 @@ Section Spec.
           destruct (from_cache_matched_first lower is_space supf validf s (l_cfg c) (l_sni c) (l_ip c) pre m post' En Hc Hpre Hm) as (x & Hf & Hs).
           exists x. split; [|exact Hs]. unfold rr, lookup_x in Err. rewrite from_cache_x_default, Hf in Err. congruence. }
       destruct Hr as (x & -> & Hs). cbn [obs_of].
-      destruct (selected_ok m x Hs) as (Hc & Hl & Hg & Hsp).
-      unfold goodb in Hg. rewrite (complete_of_cached x Hc), Hl, Hg, Hsp. reflexivity.
+      destruct (selected_ok m x Hs) as (Hc & Hl & Hrn & Hg & Hsp).
+      unfold goodb in Hg. rewrite (complete_of_cached x Hc), Hl, Hrn, Hg, Hsp. reflexivity.
     - (* nothing listed under a preferred name *)
       apply first_listed_none in Efl.
       destruct r as [|x]; cbn [obs_of]; [reflexivity|].
@@ -180,11 +186,11 @@ Section Spec.
           inversion Efl as [|? ? Hm _]; subst. apply (proj2 (select_none supf validf s _)) in Hm. congruence.
         * exfalso. fold n in Hn. rewrite Hn in Efl. cbn [is_nil] in Efl.
           inversion Efl as [|? ? Hm _]; subst. apply (proj2 (select_none supf validf s _)) in Hm. congruence.
-        * fold n in Hn. destruct (selected_ok _ x Hs) as (Hc & Hl & _ & _).
-          rewrite (complete_of_cached x Hc), Hn, Hl. cbn [is_nil andb].
+        * fold n in Hn. destruct (selected_ok _ x Hs) as (Hc & Hl & Hrn & _ & _).
+          rewrite (complete_of_cached x Hc), Hn, Hl, Hrn. cbn [is_nil andb].
           apply is_nil_false in Hd. rewrite Hd. reflexivity.
-        * destruct (selected_ok _ x Hs) as (Hc & Hl & _ & _).
-          rewrite (complete_of_cached x Hc), Hl. apply is_nil_false in Hfb. rewrite Hfb.
+        * destruct (selected_ok _ x Hs) as (Hc & Hl & Hrn & _ & _).
+          rewrite (complete_of_cached x Hc), Hl, Hrn. apply is_nil_false in Hfb. rewrite Hfb.
           cbn [negb andb]. rewrite orb_true_r. reflexivity.
       + rewrite (complete_of_loaded _ x0 Hlo), (loaded_ok_of_load x0 Hlo Hfr). cbn [andb].
         rewrite !orb_true_r. reflexivity.
